@@ -7,6 +7,7 @@
    of 256 000 octets costs a minute of parsing.  harness/props/c17.py evaluates
    the same descriptions in Python and asserts that they denote the real
    octets; CSpecSum cases cross-check the two evaluators (length + Adler-32). *)
+From Coq Require Import Uint63.
 From Model Require Import Base TableTypes C17Zip.
 From Gen Require Import Tables.
 Open Scope N_scope.
@@ -26,10 +27,17 @@ Definition cyc_step (pat : bytes) (st : bytes * bytes) : bytes * bytes :=
 Definition cyc (pat : bytes) (n : N) : bytes :=
   rev_append (snd (N.iter n (cyc_step pat) (pat, []))) [].
 
-Definition lcg_next (x : N) : N := (x * 1103515245 + 12345) mod 2147483648.
-Definition lcg_step (st : N * bytes) : N * bytes :=
-  let '(x, acc) := st in let y := lcg_next x in (y, ((y / 65536) mod 256) :: acc).
-Definition lcg (state n : N) : bytes := rev_append (snd (N.iter n lcg_step (state, []))) [].
+(* machine integers (vm_compute evaluates them natively): N arithmetic costs
+   ~100 us per octet here *)
+Definition i2n (i : int) : N := Z.to_N (Uint63.to_Z i).
+Definition i2n8 (i : int) : N := Z.to_N (Uint63.to_Z_rec 8 i).     (* i < 256 *)
+Definition n2i (n : N) : int := Uint63.of_Z (Z.of_N n).
+Definition lcg_next (x : int) : int :=
+  Uint63.land (Uint63.add (Uint63.mul x 1103515245%uint63) 12345%uint63) 2147483647%uint63.
+Definition lcg_step (st : int * bytes) : int * bytes :=
+  let '(x, acc) := st in
+  let y := lcg_next x in (y, i2n8 (Uint63.land (Uint63.lsr y 16%uint63) 255%uint63) :: acc).
+Definition lcg (state n : N) : bytes := rev_append (snd (N.iter n lcg_step (n2i state, []))) [].
 
 Fixpoint bs_eval (s : bspec) : bytes :=
   match s with
@@ -39,12 +47,13 @@ Fixpoint bs_eval (s : bspec) : bytes :=
   | SApp a b => bs_eval a ++ bs_eval b
   end.
 
-Fixpoint adler_acc (l : bytes) (a b : N) : N :=
+Fixpoint adler_acc (l : bytes) (a b : int) : N :=
   match l with
-  | [] => b * 65536 + a
-  | x :: r => let a' := (a + x) mod 65521 in adler_acc r a' ((b + a') mod 65521)
+  | [] => i2n b * 65536 + i2n a
+  | x :: r => let a' := Uint63.mod (Uint63.add a (n2i x)) 65521%uint63 in
+              adler_acc r a' (Uint63.mod (Uint63.add b a') 65521%uint63)
   end.
-Definition adler32 (l : bytes) : N := adler_acc l 1 0.
+Definition adler32 (l : bytes) : N := adler_acc l 1%uint63 0%uint63.
 
 (* one recorded interaction of the implementation with zlib / the enc model *)
 Inductive zrec :=
